@@ -46,6 +46,19 @@ class Cell:
         return self.name or '?'
 
 
+class OutOfBounds(Exception):
+    """an access outside the extent of an abstract memory block (a finding, not an engine failure)"""
+
+    def __init__(self, region, idx):
+        self.region = region
+        self.idx = idx
+        self.where = None
+
+    def __str__(self):
+        return 'access to %s[%s] outside its extent %s%s' % (self.region.name, self.idx, self.region.size,
+                                                             (' at ' + self.where) if self.where else '')
+
+
 class Region:
     """an array of cells; cells are created on demand by `make(i)`"""
 
@@ -60,6 +73,8 @@ class Region:
     def cell(self, i):
         c = self.cells.get(i)
         if c is None:
+            if isinstance(self.size, int) and isinstance(i, int) and not (0 <= i < self.size):
+                raise OutOfBounds(self, i)
             v = self.make(i) if self.make else UNDEF
             c = Cell(v, self, i)
             self.cells[i] = c
@@ -675,7 +690,12 @@ class Interp:
                 off = int(off.const_value())
             else:
                 off = ('sym', off.key(), off)
-        return p.region.cell(off)
+        try:
+            return p.region.cell(off)
+        except OutOfBounds as e:
+            if e.where is None:
+                e.where = self.loc(node)
+            raise
 
     def lookup_var(self, node):
         vid = node['id']
